@@ -111,6 +111,38 @@ def main(tier, seed):
                                                "op": op})
                         if size <= 10 and pre not in ("remove", "update"):
                             coq_cases.append((auto, hist, op, [l for l in labs if l not in NOEFFECT], rec["after"] or []))
+    # (f) MILESTONE sizes: the insert that brings the database to 2**k items (256 ... 4096) and the one after it, in a live session and as the first
+    # insert after a reopen - housekeeping that wakes up "every time the size has doubled" reads the file exactly there
+    milestone_runs = 0
+    for size in (255, 511, 1023, 2047, 4095):
+        for pre in (None, "reopen"):
+            g = dbgen.Gen((seed << 12) + 900000 + size, {"p_selective": 1.0})
+            g.ids = 1
+            pts = g.points_batch(size, in_order=True)
+            hist = [("insert", pts, None, "multiple")] + ([("reopen", True)] if pre else [])
+            t_last = max(p["time"] for p in pts)
+            for step in (1, 2):
+                newp = g.point(t_last + step * dbgen.SEC)
+                op = ("insert", [newp], None)
+                rec = iotie.recorded_run(tf, str(ck.work / f"mrec{milestone_runs}"), hist, op, True)
+                milestone_runs += 1
+                ev = rec["events"]
+                bb, ab = rec["before_bytes"] or b"", rec["after_bytes"] or b""
+                small = per_point.get((True, "in", 1), {}).get(10)
+                why = None
+                if rec["out"] != ("nat", 1):
+                    why = f"insert returned {rec['out']}"
+                elif not (ab.startswith(bb) and len(ab) > len(bb)):
+                    why = "the previous file content is not a byte-for-byte proper prefix of the new content"
+                elif any(is_read_call(e) for e in ev):
+                    why = "insert read existing data / touched another file: " + str([f"{e[1]}.{e[2]}{e[3] or ''}" for e in ev if is_read_call(e)][:4])
+                elif pre is None and small is not None and len(ev) != small:
+                    why = f"the insert made {len(ev)} I/O calls where the same insert into a database of 10 points makes {small}"
+                if why and len(direct_bad) < 4:
+                    direct_bad.append({"kind": "failing-input", "why": why, "database_size": size + step - 1, "auto_index": True, "order": "in", "preceding_operation": pre,
+                                       "history": f"insert_multiple of {size} in-order points" + (", then reopen" if pre else "") + (", then one more in-order insert" if step == 2 else ""),
+                                       "op": op, "calls": [f"{e[1]}.{e[2]}" for e in ev][:40], "number_of_calls": len(ev)})
+                hist = hist + [op]
     # inserts that RAISE part-way (a non-Point inside insert_multiple; a lone non-Point): whatever the call does about the points it had
     # already stored, the file only grows - the previous content stays a byte-for-byte prefix - and no existing data is read
     raising_runs = 0
@@ -367,7 +399,7 @@ def main(tier, seed):
             "Print Assumptions: " + json.dumps(b["assumptions"])],
         "theorems": b["theorems"], "forbidden_tokens_found": b["forbidden"],
         "evaluations": len(cases) + raising_runs, "inserts_raising_part_way": raising_runs, "distinct_nontrivial": len({json.dumps(c, sort_keys=True) for c in cases if c["size"] > 0}),
-        "rule": "one insert / insert_multiple(3) recorded through the proxies at database sizes " + str(sizes) + " x auto_index on/off x in-order/out-of-order "
+        "milestone_size_inserts_recorded": milestone_runs, "rule": "one insert / insert_multiple(3) recorded through the proxies at database sizes " + str(sizes) + " x auto_index on/off x in-order/out-of-order "
                 "x after an early-terminating get/contains or len; checked directly: byte prefix, no read-type call and no other file touched, same number "
                 "of calls at every size, file decodes to old + new; non-trivial = the database is non-empty before the insert",
         "calls_by_configuration_and_size": {str(k): v for k, v in per_point.items()},
